@@ -12,7 +12,7 @@ development: checks/c05c.py).
    sequentially (handlers idle between steps) and in parallel mode (deliveries race with the activations);
 3. verdict: MonKeyDistribution (TLC) over the observed values; full-spec conformance of the sequential
    runs against TraceKeyDistribution is model drift only."""
-import json, os, threading
+import json, os, re, threading
 import vf
 
 PKG = "."
@@ -33,8 +33,8 @@ SHAPES = {
     "3x2": {"m1": ["d11", "d12"], "m2": ["d21", "d22"], "m3": ["d31", "d32"]},
 }
 DEV = os.environ.get("KEYDIST_DEV", "")     # development switches, never set by registered commands
-JITTERS = [0, 1000, 4000]       # parallel mode: each activation starts after a seeded delay below this (us)
-SLOWS = [3000, 8000, 15000]     # parallel mode: latency of every log append (us) - stretches the devices' own steps
+JITTERS = [0, 1000, 3000]       # racing sections: the activation starts after a seeded delay below this (us)
+SLOWS = [6000, 12000, 20000]    # racing sections: latency of every log append of the activating device (us)
 IMPL = ["ImplHandlerSends", "ImplSendExisting", "ImplFill", "ImplSubscribeFirst", "ImplSentOwnOnly", "ImplFilterMember"]
 # smallest shape on which each different design breaks completeness (ImplFill needs a second device of a served member)
 MUTANT_SHAPE = {"ImplFill": "1x2"}
@@ -70,6 +70,19 @@ def _parallel(jobs, width):
     return res
 
 
+def _count(ctx, r, name=None):
+    """add a TLC run's numbers to the ctx (simulation runs report their count on a line lib/vf.py does not parse)"""
+    if r.generated == 0:
+        m = re.search(r"The number of states generated: (\d+)", r.out)
+        if m:
+            r.generated = int(m.group(1))
+            for t in ctx.tlc_runs:
+                if t["wall_s"] == round(r.wall, 2) and t["generated"] == 0 and t["mode"] == "simulate":
+                    t["generated"] = r.generated
+    ctx.states += r.distinct
+    ctx.transitions += r.generated
+
+
 def design_jobs(ctx):
     """TLC jobs of the design level: [(label, callable)]"""
     quick = ctx.tier == "quick"
@@ -94,7 +107,7 @@ def design_jobs(ctx):
     for shape, eager, w in plan:
         jobs.append(((shape, None, eager, False), mc(shape, eager=eager, workers=w)))
     # beyond: seeded random walks of the exhaustive-mode model
-    for shape, n in ([] if quick else [("2x2", 2000), ("3x2", 500), ("2+1+1", 1000)]):
+    for shape, n in ([] if quick else [("2x2", 400), ("3x2", 100), ("2+1+1", 200)]):
         jobs.append(((shape, None, False, True), mc(shape, simulate="num=%d" % n)))
     # each different design must break completeness (otherwise the model does not see what the replay must catch)
     for flip in IMPL:
@@ -105,8 +118,7 @@ def design_jobs(ctx):
 
 def design_results(ctx, labelled, out):
     for (shape, flip, eager, sim), r in labelled:
-        ctx.states += r.distinct
-        ctx.transitions += r.generated
+        _count(ctx, r)
         if flip is None:
             if not r.ok:
                 raise vf.Infra("KeyDistribution.tla with the code's choices must satisfy its invariants on %s: %s" % (shape, r.violated))
@@ -125,7 +137,7 @@ def _features(h):
         if x["act"] == "activate":
             started.add(x["d"])
             order.append(x["d"])
-        elif x["d"] in started:
+        elif x["act"] == "deliver" and x["d"] in started:
             post += 1
         else:
             pre += 1
@@ -158,15 +170,38 @@ def _spread(ctx, hs, n):
     return out
 
 
-def _racify(h):
-    """parallel-mode variant of a script: the activation of a device is moved in front of the last delivery that
-    preceded it, so that this delivery lands before / during / after the activation (seeded jitter in the driver)"""
-    h = [dict(x) for x in h]
-    for d in sorted({x["d"] for x in h if x["act"] == "activate"}):
+def _pre(h, d):
+    """indices of the deliveries to d that precede d's activation"""
+    ia = next((i for i, x in enumerate(h) if x["act"] == "activate" and x["d"] == d), None)
+    return [] if ia is None else [i for i in range(ia) if h[i]["act"] == "deliver" and h[i]["d"] == d]
+
+
+def _raceable(h):
+    """devices whose activation is preceded by at least two deliveries: when the last one is made to race with
+    the activation, the activation already has members to serve (slow appends) while the delivery arrives"""
+    return sorted(d for d in {x["d"] for x in h if x["act"] == "activate"} if len(_pre(h, d)) >= 2)
+
+
+def _racify(rng, h):
+    """variant of a script with a racing section (steps with y = 1, see the driver): for a seeded choice of one
+    activation (one preceded by two deliveries if there is any), the activation is moved in front of the last
+    delivery that preceded it (if any) and this pair plus the next step race - the delivery lands inside the activation
+    whose log appends are slowed down; the rest of the script stays sequential, so the racing device starts
+    from a known state"""
+    h = [dict(x, y=0) for x in h]
+    good = _raceable(h)
+    rest = sorted({x["d"] for x in h if x["act"] == "activate"} - set(good))
+    rng.shuffle(good)
+    rng.shuffle(rest)
+    acts = good + rest
+    for d in acts[:1]:      # one racing activation per variant: everything it depends on has happened sequentially
         ia = next(i for i, x in enumerate(h) if x["act"] == "activate" and x["d"] == d)
-        pre = [i for i in range(ia) if h[i]["act"] == "deliver" and h[i]["d"] == d]
+        pre = _pre(h, d)
         if pre:
             h.insert(pre[-1], h.pop(ia))
+            ia = pre[-1]
+        for x in h[ia:ia + 3]:
+            x["y"] = 1
     return h
 
 
@@ -174,8 +209,8 @@ def gen_plan(ctx):
     # (shape, MaxLen, mode, walks, scripts kept sequential, of which also run in parallel mode)
     if ctx.tier == "quick":
         return [("2x1", 6, "bfs", 0, 8, 3), ("1x2", 5, "bfs", 0, 4, 2), ("2+1", 9, "sim", 150, 20, 8), ("3x1", 9, "sim", 80, 6, 3), ("2x2", 11, "sim", 80, 8, 4)]
-    return [("2x1", 6, "bfs", 0, 184, 40), ("1x2", 5, "bfs", 0, 40, 10), ("2+1", 10, "sim", 1500, 220, 80), ("3x1", 10, "sim", 800, 90, 30),
-            ("2x2", 12, "sim", 800, 100, 40), ("2+1+1", 12, "sim", 500, 50, 20), ("4x1", 12, "sim", 400, 40, 15), ("3x2", 16, "sim", 300, 24, 10)]
+    return [("2x1", 6, "bfs", 0, 110, 40), ("1x2", 5, "bfs", 0, 40, 12), ("2+1", 10, "sim", 600, 200, 80), ("3x1", 10, "sim", 300, 80, 30),
+            ("2x2", 12, "sim", 300, 90, 40), ("2+1+1", 12, "sim", 200, 50, 20), ("4x1", 12, "sim", 150, 40, 15), ("3x2", 16, "sim", 100, 24, 10)]
 
 
 def gen_jobs(ctx, plan):
@@ -196,20 +231,23 @@ def gen_jobs(ctx, plan):
 def gen_results(ctx, plan, res):
     scripts, per_shape = [], {}
     for (shape, maxlen, mode, walks, keep, npar), r in zip(plan, res):
-        ctx.states += r.distinct
-        ctx.transitions += r.generated
+        _count(ctx, r)
         hs = r.printed.get("SCRIPT", [])
         if not hs:
             raise vf.Infra("GenKeyDistribution produced no script for " + shape)
         chosen = _spread(ctx, hs, keep)
         for h in chosen:
             scripts.append({"cfg": {"members": SHAPES[shape], "shape": shape, "par": False, "part": "c"}, "steps": h})
-        for h in _spread(ctx, chosen, npar):
-            # parallel mode: nothing waits for anything, log appends are slow: the deliveries land inside the
-            # activations and the handlers' reactions
+        # racing variants: preferably of scripts in which an activation is preceded by two deliveries to that device
+        uniq = _spread(ctx, hs, 10 ** 9)
+        pool = [h for h in uniq if _raceable(h)]
+        racing = _spread(ctx, pool, (npar * 2 + 2) // 3)
+        racing += _spread(ctx, [h for h in chosen if h not in racing], npar - len(racing))
+        for h in racing:
+            # variants with racing sections: deliveries land inside activations whose log appends are slowed down
             scripts.append({"cfg": {"members": SHAPES[shape], "shape": shape, "par": True, "part": "c",
-                                    "jitter_us": ctx.rng.choice(JITTERS), "slow_us": ctx.rng.choice(SLOWS)}, "steps": _racify(h)})
-        per_shape[shape] = {"generated": len({json.dumps(h, sort_keys=True) for h in hs}), "sequential": len(chosen), "parallel": min(npar, len(chosen)),
+                                    "jitter_us": ctx.rng.choice(JITTERS), "slow_us": ctx.rng.choice(SLOWS)}, "steps": _racify(ctx.rng, h)})
+        per_shape[shape] = {"generated": len({json.dumps(h, sort_keys=True) for h in hs}), "sequential": len(chosen), "racing": len(racing),
                             "mode": "exhaustive up to %d environment moves" % maxlen if mode == "bfs" else "%d seeded walks, <= %d environment moves" % (walks, maxlen)}
     for i, s in enumerate(scripts):
         s["id"] = 500000 + i
@@ -245,7 +283,7 @@ def _explain(line):
 
 
 def _show(sc):
-    return " ; ".join("%s %s%s" % (x["act"], x["d"], "" if x.get("s", "-") == "-" else " " + x["s"]) for x in sc["steps"])
+    return " ; ".join("%s%s %s%s" % ("~" if x.get("y") else "", x["act"], x["d"], "" if x.get("s", "-") == "-" else " " + x["s"]) for x in sc["steps"])
 
 
 def run_part_c(ctx, info=None, replay_obj=None):
@@ -323,10 +361,10 @@ def run_part_c(ctx, info=None, replay_obj=None):
         sc = byid[rj["id"]]
         line = rj["info"].get("line", {})
         for key, txt in _explain(line)[:1]:
-            what = "chain-key distribution breaks C05(c) [%s] in a %s group (%s mode): %s; script: %s" % (
-                key, sc["cfg"].get("shape"), "parallel" if sc["cfg"].get("par") else "sequential", txt, _show(sc))
+            what = "chain-key distribution breaks C05(c) [%s] in a %s group (%s): %s; script: %s" % (
+                key, sc["cfg"].get("shape"), "racing sections marked ~" if sc["cfg"].get("par") else "sequential", txt, _show(sc))
             ctx.classify("c:" + key, what, {"part": "c", "script": sc, "observed": rj["events"], "rejected_line": line, "step": rj["at"]})
-    info["parts"]["c"] = {"scripts": len(scripts), "sequential": len(seq_ids), "parallel_mode": len(scripts) - len(seq_ids),
+    info["parts"]["c"] = {"scripts": len(scripts), "sequential": len(seq_ids), "with_racing_sections": len(scripts) - len(seq_ids),
                           "per_shape": per_shape, "device_pairs_checked_at_quiescence": pairs,
                           "activations_not_returned": hung, "runs_with_duplicate_announcements": dup}
     for s in scripts:
